@@ -34,6 +34,12 @@ func typecheckFunctionsAndProcesses(processes []*Process, assumedFreeNames []Nam
 	reported := false
 
 	defer func() {
+		if r := recover(); r != nil && !reported {
+			// An internal failure must be reported as an error, never as a successful typecheck
+			errorChan <- fmt.Errorf("internal typechecker error: %v", r)
+			return
+		}
+
 		if !reported {
 			// No error found, notify parent
 			doneChan <- true
